@@ -16,6 +16,7 @@
 (*                      while the entity is still unparsed],                   *)
 (*          rb     |-> [entity |-> identity tokens of its resolved bases],     *)
 (*          n      |-> next identity token,                                    *)
+(*          log    |-> the entities in the order their objects were created,   *)
 (*          fgd    |-> TRUE once the whole-database FGD has been built]        *)
 (* Identity tokens count definition objects in the order they are created, so  *)
 (* the specification also fixes the order in which entities are unserialised.  *)
@@ -23,15 +24,28 @@ EXTENDS Integers, Sequences, FiniteSets
 
 SeqToSet(q) == {q[k] : k \in 1..Len(q)}
 NBlocks(db) == Len(db.blocks)
-EntsOf(db) == UNION {SeqToSet(db.blocks[b]) : b \in 1..NBlocks(db)} \cup {db.cbase}
-BlockOf(db, e) == CHOOSE b \in 1..NBlocks(db) : e \in SeqToSet(db.blocks[b])
+\* bases has one field per entity (the root included)
+EntsOf(db) == DOMAIN db.bases
+\* a description may carry the entity -> block number map (large databases);
+\* WellFormed ties it to blocks
+BlockOf(db, e) == IF "blk" \in DOMAIN db THEN db.blk[e]
+                  ELSE CHOOSE b \in 1..NBlocks(db) : e \in SeqToSet(db.blocks[b])
+RECURSIVE SumLen(_, _)
+SumLen(blocks, b) == IF b > Len(blocks) THEN 0 ELSE Len(blocks[b]) + SumLen(blocks, b + 1)
+WellFormed(db) ==
+    /\ EntsOf(db) = UNION {SeqToSet(db.blocks[b]) : b \in 1..NBlocks(db)} \cup {db.cbase}
+    \* no entity is stored twice, and the root is in no block
+    /\ SumLen(db.blocks, 1) = Cardinality(EntsOf(db)) - 1
+    /\ \A b \in 1..NBlocks(db) : \A k \in 1..Len(db.blocks[b]) :
+          "blk" \in DOMAIN db => db.blk[db.blocks[b][k]] = b
+    /\ \A e \in EntsOf(db) : \A k \in 1..Len(db.bases[e]) : db.bases[e][k] \in EntsOf(db)
 
 \* unserialise(): nothing parsed except the root definition, which is object 1
 DbInit(db) ==
     [parsed |-> {}, cnt |-> [b \in 1..NBlocks(db) |-> 0],
      obj |-> [e \in EntsOf(db) |-> IF e = db.cbase THEN 1 ELSE 0],
      rb  |-> [e \in EntsOf(db) |-> <<>>],
-     n |-> 2, fgd |-> FALSE]
+     n |-> 2, log |-> <<>>, fgd |-> FALSE]
 
 Loaded(st, e) == st.obj[e] # 0
 
@@ -42,7 +56,7 @@ Install(db, st, ents, k) ==
     IF k > Len(ents) THEN st
     ELSE LET e == ents[k] IN
          Install(db,
-                 [st EXCEPT !.obj[e] = st.n, !.n = st.n + 1,
+                 [st EXCEPT !.obj[e] = st.n, !.n = st.n + 1, !.log = Append(@, e),
                             !.rb[e] = IF db.bases[e] = <<>> THEN <<st.obj[db.cbase]>> ELSE <<>>],
                  ents, k + 1)
 
@@ -83,17 +97,20 @@ GetFgd(db, st) ==
     ELSE [s |-> [ParseRest(db, st, 1) EXCEPT !.fgd = TRUE], res |-> 0]
 
 \* the entities whose objects were created by a step, in creation order
-Created(st, st2) ==
-    [k \in 1..(st2.n - st.n) |-> CHOOSE e \in DOMAIN st2.obj : st2.obj[e] = st.n + k - 1]
+Created(st, st2) == SubSeq(st2.log, Len(st.log) + 1, Len(st2.log))
 
 (* ---- what must hold in every reachable state ----------------------------- *)
 EffBases(db, e) == IF e = db.cbase THEN <<>>
                    ELSE IF db.bases[e] = <<>> THEN <<db.cbase>> ELSE db.bases[e]
-OwnerOf(st, tok) == CHOOSE e \in DOMAIN st.obj : st.obj[e] = tok
+OwnerOf(st, tok) == IF tok = 1 THEN CHOOSE e \in DOMAIN st.obj : st.obj[e] = 1 ELSE st.log[tok - 1]
 ParsedOnce(db, st) == \A b \in 1..NBlocks(db) : st.cnt[b] = IF b \in st.parsed THEN 1 ELSE 0
 LoadedIffParsed(db, st) ==
     \A b \in 1..NBlocks(db) : \A e \in SeqToSet(db.blocks[b]) : Loaded(st, e) <=> b \in st.parsed
-Distinct(st) == \A e, f \in DOMAIN st.obj : (e # f /\ Loaded(st, e) /\ Loaded(st, f)) => st.obj[e] # st.obj[f]
+\* object k+1 is the k-th created one and belongs to exactly that entity (the root is object 1)
+Distinct(st) == /\ st.n = Len(st.log) + 2
+                /\ \A k \in 1..Len(st.log) : st.obj[st.log[k]] = k + 1
+                /\ Cardinality(SeqToSet(st.log)) = Len(st.log)
+                /\ \A e \in DOMAIN st.obj : Loaded(st, e) => (e \in SeqToSet(st.log) \/ st.obj[e] = 1)
 \* every parsed definition has exactly the bases of the fully loaded database,
 \* and they are loaded themselves
 BasesResolved(db, st) ==
@@ -116,7 +133,8 @@ Stable(st, st2) == \A e \in DOMAIN st.obj : Loaded(st, e) => st2.obj[e] = st.obj
 \* dbs is a sequence of database descriptions; the answer comes from the first
 \* one that knows the class.  0 = KeyError.
 FirstWith(dbs, e) ==
-    IF \E k \in 1..Len(dbs) : e \in EntsOf(dbs[k])
+    IF Len(dbs) = 1 THEN (IF e \in EntsOf(dbs[1]) THEN 1 ELSE 0)
+    ELSE IF \E k \in 1..Len(dbs) : e \in EntsOf(dbs[k])
     THEN CHOOSE k \in 1..Len(dbs) : e \in EntsOf(dbs[k]) /\ \A m \in 1..(k - 1) : e \notin EntsOf(dbs[m])
     ELSE 0
 AllClasses(dbs) == UNION {EntsOf(dbs[k]) : k \in 1..Len(dbs)}
